@@ -25,8 +25,9 @@ structure Labels where
   g : Bool := false
 
 /-- the verification oracle: the harness computed each label with the real `VerifyBeacon` -/
-def labelVerify (chained : Bool) (l : Labels) (b : Beacon) : Bool :=
+def labelVerify (chained : Bool) (nmax : Nat) (l : Labels) (b : Beacon) : Bool :=
   if b.sig.isEmpty then l.e
+  else if b.round > nmax then false   -- the harness has no signature for rounds beyond the chain it generated
   else if b.round = 0 then l.g
   else match b.sig with
     | [1, k] => if k = UInt8.ofNat b.round then (if b.prev = truePrev chained b.round then l.t else l.p) else l.w
@@ -46,6 +47,7 @@ structure SyncSt where
   rg : Bool := false
   fr : Bool := false
   labels : Labels := {}
+  nmax : Nat := 0
   node : Node := ⟨Stack.init true seedSym, [], []⟩
 
 def SyncSt.trimPrev (s : SyncSt) : Bool := s.backend == .trimmed && s.chained && s.mode == .participant
@@ -68,7 +70,7 @@ def viewLastErr (s : SyncSt) (base : BoltState) : Bool :=
   | some (k, _) => s.trimPrev && decide (k > 0) && (lookup (k - 1) base).isNone
 
 def SyncSt.cfg (s : SyncSt) : Cfg :=
-  { verify := labelVerify s.chained s.labels, lastErr := viewLastErr s, mode := s.mode, roundCheck := s.rc, rangeCheck := s.rg, followRetry := s.fr }
+  { verify := labelVerify s.chained s.nmax s.labels, lastErr := viewLastErr s, mode := s.mode, roundCheck := s.rc, rangeCheck := s.rg, followRetry := s.fr }
 
 /-! ### peer scripts -/
 
@@ -148,14 +150,14 @@ def parseRounds (tok : String) : List Nat := if tok = "-" then [] else (tok.spli
 
 def syncStep (s : SyncSt) (f : List String) : SyncSt × String :=
   match f with
-  | "init" :: c :: m :: be :: _n :: head :: rc :: rg :: fr :: labels =>
+  | "init" :: c :: m :: be :: nn :: head :: rc :: rg :: fr :: labels =>
     let chained := flag c
     let base0 : BoltState := Bolt.put [] (genesis seedSym)
     let base := (List.range' 1 (head.toNat?.getD 0)).foldl
       (fun acc r => Bolt.put acc ⟨r, sigT r, truePrev chained r⟩) base0
     ({ chained, mode := if m = "follow" then .follow else .participant,
        backend := if be = "bolt" then .bolt else .trimmed, rc := flag rc, rg := flag rg, fr := flag fr,
-       labels := parseLabels labels, node := ⟨Stack.build chained base, [], []⟩ }, "ok")
+       labels := parseLabels labels, nmax := nn.toNat?.getD 0 + 10, node := ⟨Stack.build chained base, [], []⟩ }, "ok")
   | "sync" :: upTo :: perm :: peers =>
     let r := sync s.cfg "self" 0 (upTo.toNat?.getD 0) false s.node (peersAt s.chained 0 perm peers)
     let res := match r.2.1 with | .ok => "ok" | .failedAll => "failed-all" | .cancelled => "cancelled"
@@ -194,9 +196,9 @@ def syncStep (s : SyncSt) (f : List String) : SyncSt × String :=
     let rs := (List.range ((upTo.toNat?.getD 0) + 1)).filterMap fun r =>
       (viewGet s s.node.st.base r).map fun b => s!"{b.round}:{toHex b.sig}:{toHex b.prev}"
     (s, s!"len={s.node.st.base.length} " ++ joinOr "," rs)
-  | ["admit", factor, period, now, lrt, alive, last, upTo] =>
+  | ["admission", factor, period, now, lrt, alive, last, upTo] =>
     let rs : RunState := ⟨lrt.toInt?.getD 0, flag alive⟩
-    let r := admit (factor.toNat?.getD 0) (period.toNat?.getD 0) (now.toInt?.getD 0) rs (last.toNat?.getD 0) (upTo.toNat?.getD 0)
+    let r := admitReq (factor.toNat?.getD 0) (period.toNat?.getD 0) (now.toInt?.getD 0) rs (last.toNat?.getD 0) (upTo.toNat?.getD 0)
     (s, match r.2 with | .filled => "filled" | .start => "start" | .ignore => "ignore")
   | _ => (s, "bad-op")
 
